@@ -53,7 +53,7 @@ COMPONENTS = {
 }
 
 OPS = ["set_weights", "set_means", "set_variances", "set_floor", "em_step", "em_step",
-       "deepcopy", "pickle", "hdf5_from", "hdf5_load", "nudge_variances", "nudge_floor",
+       "deepcopy", "pickle", "shallow_copy", "hdf5_from", "hdf5_load", "nudge_variances", "nudge_floor",
        "em_many", "aug_assign", "edit_reassign", "lend_arrays", "parallel_stats"]
 
 
@@ -431,6 +431,15 @@ def run_case(case, replay=None):
                         nontrivial = True
                         m = copy.deepcopy(m)
                         rec.faults["F5_restart_deepcopy"] = rec.faults.get("F5_restart_deepcopy", 0) + 1
+                    elif name == "shallow_copy":
+                        nontrivial = True
+                        old = m
+                        m = copy.copy(m)
+                        # the original keeps living and is modified through its setters; the
+                        # copy must keep computing from its own visible parameters
+                        old.variances = np.array(old.variances, float) * 2.0
+                        old.weights = np.array(old.weights, float)[::-1].copy()
+                        rec.faults["F5_restart_shallow_copy"] = rec.faults.get("F5_restart_shallow_copy", 0) + 1
                     elif name == "pickle":
                         nontrivial = True
                         m = pickle.loads(pickle.dumps(m))
